@@ -525,6 +525,9 @@ func VH_C09_zombie_sibling() {
 	ba := vhFailing("b", false)
 	b := w.spawn(p, "b", ba)
 
+	es := w.sys.eventStream.(*eventStream)
+	es.Subscribe(a, vhEvtA{})
+	es.Subscribe(a, vhEvtB{})
 	a.TellSelf(&vhBoom{})
 	w.run(800, "supervision-terminates")
 	vrtAssert(a.zombie, "hook-failure-makes-zombie")
@@ -553,6 +556,15 @@ func VH_C09_zombie_sibling() {
 		vrtAssert(vhCountEnv(w.boxes[p], noticeA) >= 1, "zombie-release-reported-to-parent")
 		vrtAssert(vhCountEnv(w.boxes[p], noticeA) <= 1, "zombie-release-reported-to-parent-at-most-once")
 		vrtAssert(p.state == running && b.state == running, "zombie-release-leaves-the-others-running")
+		_, stale := es.subscriberTypes[a.ref.GetPath()]
+		vrtAssert(!stale, "terminated-subscriber-has-no-entry")
+		for _, bucket := range es.subscribers {
+			_, in := bucket[a.ref.GetPath()]
+			vrtAssert(!in, "terminated-subscriber-has-no-entry")
+		}
+		nb := len(w.boxes[a].all)
+		es.Publish(p, vhEvtA{N: 9})
+		vrtAssert(len(w.boxes[a].all) == nb, "no-delivery-after-termination")
 		vrtReach("released-by-kill")
 	} else {
 		w.root.Kill(p.ref, vrtBool(), "parent")
